@@ -12,6 +12,9 @@ HEADER = ('From Coq Require Import List ZArith NArith.\n'
           'Definition a (z : Z) : N := Z.to_N z.\n')
 CASE_TYPE = 'C19.case'
 NS = 'http://www.collada.org/2005/11/COLLADASchema'
+# documents are also written in other namespaces: COLLADA 1.5 and arbitrary ones
+OTHER_NS = ['http://www.collada.org/2008/03/COLLADASchema', 'http://www.collada.org/2008/03/COLLADASchema',
+            'urn:example:scene-format', 'http://example.org/ns/collada-like']
 WDEN = 8          # morph weights are multiples of 1/8
 FAULTS = ['oob-joint', 'oob-weight', 'neg-joint', 'neg-weight', 'short', 'long', 'mismatch']
 # reference-level faults (outside the property's list): (name, exception code the loader documents)
@@ -165,6 +168,7 @@ def gen_skin(rng, fault=None, geoms=None, cid='ctrl', build=True):
 def add_extras(rng, case):
     """further, well-formed controllers in the same document (own sources - the same source ids are
     re-used on purpose -, own instances in the scene)"""
+    case['ns'] = NS if rng.random() < 0.65 else rng.choice(OTHER_NS)
     case['extras'] = []
     if rng.random() < 0.3:
         for k in range(rng.choice([1, 1, 2])):
@@ -431,6 +435,7 @@ def doc_xml(rng, top):
     counter = [0]
     bodies, libnodes, inners = [], [], []
     for k in order:
+        subs[k]['doc_ns'] = top.get('ns', NS)
         b, ln, inner = controller_xml(rng, subs[k], counter)
         bodies.append('<controller id="%s">%s</controller>' % (subs[k].get('cid', 'ctrl'), b))
         libnodes.append(ln)
@@ -442,7 +447,7 @@ def doc_xml(rng, top):
             '<library_controllers>%s</library_controllers>%s'
             '<library_visual_scenes><visual_scene id="vs">%s</visual_scene></library_visual_scenes>'
             '<scene><instance_visual_scene url="#vs"/></scene></COLLADA>'
-            % (NS, ''.join(geom_xml(g) for g in top['geoms']), ''.join(bodies),
+            % (top.get('ns', NS), ''.join(geom_xml(g) for g in top['geoms']), ''.join(bodies),
                '<library_nodes>%s</library_nodes>' % ln if ln else '', ''.join(inners)))
 
 
@@ -451,6 +456,9 @@ def controller_xml(rng, case, counter):
     cid = case.get('cid', 'ctrl')
     xf, xk = case.get('xml_fault') or (None, 0)
     DEC = ' xmlns:x="urn:decoy"'
+    if case.get('doc_ns', NS) != NS:
+        # in a document of another namespace the elements of the 1.4 namespace are foreign too
+        DEC = ' xmlns:x="%s"' % NS
     srcs = ''.join(source_xml(rng, s, xf if (xf in ('no-params', 'no-array') and i == xk % len(case['sources'])) else None)
                    for i, s in enumerate(case['sources']))
 
@@ -553,7 +561,7 @@ def xml_case(I, case, code, o):
     import xml.etree.ElementTree as ET
     root = ET.fromstring(case['xml'].encode('utf-8'))
     el = None
-    for c in root.iter('{%s}controller' % NS):
+    for c in root.iter('{%s}controller' % case.get('doc_ns', NS)):
         if c.get('id') == case.get('cid', 'ctrl'):
             el = c
     if el is None:
@@ -563,7 +571,7 @@ def xml_case(I, case, code, o):
     for tok, k in I.enc.nums.items():
         nums[k] = int(round(float(tok) * WDEN))
     return '(XmlCase (%s) %s %s %s (n %d) (%s))' % (
-        I(NS), zl(nums), clist([I(g['id']) for g in case['geoms']]), term, code, o)
+        I(case.get('doc_ns', NS)), zl(nums), clist([I(g['id']) for g in case['geoms']]), term, code, o)
 
 
 def zl(xs):
@@ -737,6 +745,7 @@ def run(ctx):
         bump(dist['kind'], c['kind'])
         bump(dist['fault'], c['fault'])
         bump(dist['nodes'], len(c['nodes']))
+        bump(dist.setdefault('document_namespace', {}), c.get('ns', NS))
         bump(dist.setdefault('controllers_per_document', {}), 1 + len(c.get('extras') or []))
         bump(dist.setdefault('paths_to_controller', {}), len(c.get('paths') or [1]))
         bump(dist['codes'], (r.get('obs') or {}).get('code'))
